@@ -30,6 +30,20 @@ HINT_OP = {"__mul__": ast.Mult, "__add__": ast.Add, "__and__": ast.BitAnd, "__or
            "__truediv__": ast.FloorDiv, "__divmod__": ast.FloorDiv}
 
 
+def _sign_test(t, x):
+    """Truth of a comparison of `x` with the literal 0 on the sign classes x > 0, x = 0, x < 0 (None: not such a test)."""
+    if not (isinstance(t, ast.Compare) and len(t.ops) == 1):
+        return None
+    l, r, op = norm(t.left), norm(t.comparators[0]), type(t.ops[0])
+    flip = {ast.Lt: ast.Gt, ast.Gt: ast.Lt, ast.LtE: ast.GtE, ast.GtE: ast.LtE}
+    if l == "0" and r == x and op in flip:
+        l, r, op = r, l, flip[op]
+    if not (l == x and r == "0" and op in flip):
+        return None
+    tab = {ast.Gt: (True, False, False), ast.GtE: (True, True, False), ast.Lt: (False, False, True), ast.LtE: (False, True, True)}[op]
+    return dict(zip(("x > 0", "x = 0", "x < 0"), tab))
+
+
 def rets_of(fi):
     return [n for n in ast.walk(fi.node) if isinstance(n, ast.Return) and n.value is not None and not any(
         isinstance(p, (ast.FunctionDef, ast.Lambda)) and p is not fi.node for p in parents(n))]
@@ -369,6 +383,26 @@ def rule_correspondence(repo, rule):
     at = norm(_rl(ab.node, rr[0].value)) if rr else ""
     if at in ("if_then_else(%s >= 0, %s, -%s)" % (s_, s_, s_), "if_then_else(%s < 0, -%s, %s)" % (s_, s_, s_)):
         rule.ok(ab.loc(), ab.fq, at)
+    elif rr and isinstance(_rl(ab.node, rr[0].value), ast.Call) and norm(_rl(ab.node, rr[0].value).func) == "if_then_else" \
+            and len(_rl(ab.node, rr[0].value).args) == 3 and not _rl(ab.node, rr[0].value).keywords \
+            and _sign_test(_rl(ab.node, rr[0].value).args[0], s_) is not None \
+            and all(poly_of(a_, {s_: P.sym("x")}, strict=True) is not None for a_ in _rl(ab.node, rr[0].value).args[1:]):
+        # a selection on a sign test of x between two polynomials of x: decided on the three sign classes (x > 0, x = 0, x < 0)
+        call_ = _rl(ab.node, rr[0].value)
+        holds = _sign_test(call_.args[0], s_)
+        pa, pb = [poly_of(a_, {s_: P.sym("x")}, strict=True) for a_ in call_.args[1:]]
+        bad = []
+        for cls_, want in (("x > 0", P.sym("x")), ("x = 0", P.const(0)), ("x < 0", -P.sym("x"))):
+            got = pa if holds[cls_] else pb
+            d_ = got - want
+            if cls_ == "x = 0":
+                d_ = d_.subst({"x": P.const(0)})
+            if not d_.is_zero():
+                bad.append("%s: returns %s" % (cls_, got))
+        if bad:
+            rule.violation(ab.loc(), ab.fq, at[:100] + "  [" + "; ".join(bad) + "]", "abs is not select(x >= 0, x, -x)", "abs")
+        else:
+            rule.ok(ab.loc(), ab.fq, at[:100], "selection on a sign test: x, 0, -x on the three sign classes")
     else:
         # any other construction (e.g. recomposing the magnitude bits of the sign test): the value returned, path by path with
         # checks on and split on the sign, must be x for x >= 0 and -x for x < 0
